@@ -12,12 +12,6 @@ type GenConfig struct {
 	MaxBatches int      // default 8
 	MaxRecords int      // per batch, default 6
 	Formats    []Format // allowed formats; default all
-
-	// NoV1WrapperLogAppendTime excludes by construction the class "v1 compressed
-	// wrapper whose timestamp type is log append time" (used by checks for which that
-	// class is a recorded known finding). Excluded is called once per suppressed draw.
-	NoV1WrapperLogAppendTime bool
-	Excluded                 func()
 }
 
 type producer struct {
@@ -199,12 +193,6 @@ func GenLog(cfg GenConfig) *rapid.Generator[*Log] {
 			if f != V2 {
 				if rapid.Bool().Draw(t, "wrapper") {
 					genCodec(t, &b, true)
-					if f == V1 && b.LogAppendTime && cfg.NoV1WrapperLogAppendTime {
-						b.LogAppendTime = false
-						if cfg.Excluded != nil {
-							cfg.Excluded()
-						}
-					}
 					n := rapid.IntRange(1, cfg.MaxRecords).Draw(t, "nInner")
 					for _, off := range genOffsets(t, pos, n, true) {
 						b.Records = append(b.Records, genRecord(off, false))
